@@ -193,3 +193,55 @@ Definition check_ocase (c : ocase) : bool :=
     match remove_opt all_classes b p f with Some (_, r) => tree_same r a | None => false end
   end
   && match c with TCreateOpt b _ _ a | TRemoveOpt b _ _ a => hwf_b all_classes b && hwf_b all_classes a end.
+
+(* check_ecase with the observation of an insertion at index 0 of a NON-EMPTY list corrected: there the new separators
+   FOLLOW the new item (rep_insert_B), they are the tokens between its end and the next item (observed_insert reads
+   the tokens before the item, which is right in every other case). In addition the separator texts must be the ones
+   of the field declaration: `separators_before` (when declared) for the first item of an empty list, `separators`
+   otherwise. *)
+Definition observed_insert2 (after : node) (p : path) (f : string) (i : nat) : option (list tk * node) :=
+  match i, select after p with
+  | O, Some n =>
+    match node_rep n f with
+    | Some (_, rt, ph, y :: z :: _) =>
+      match after_unit rt (node_toks y), node_toks z with
+      | Some a, x :: _ => match find_off x rt with Some b => Some (slice rt a b, y) | None => None end
+      | _, _ => None
+      end
+    | _ => observed_insert after p f i
+    end
+  | _, _ => observed_insert after p f i
+  end.
+
+Definition rep_seps_match (before : node) (p : path) (f : string) (seps : list tk) : bool :=
+  match select before p with
+  | Some (Tree c _ _ kids _) =>
+    match find_class all_classes c, kid kids f with
+    | Some dd, Some (SRep _ _ _ items) =>
+      match find_field (c_fields dd) f with
+      | Some fd =>
+        match f_kind fd with
+        | FRep l lb =>
+          list_eqb String.eqb (map k_text seps)
+                   (match items, lb with [], Some l' => l' | _, _ => l end)
+        | _ => false
+        end
+      | None => false
+      end
+    | _, _ => false
+    end
+  | _ => false
+  end.
+
+Definition check_ecase2 (c : ecase) : bool :=
+  match c with
+  | TInsert b p f i a =>
+    match observed_insert2 a p f i with
+    | Some (seps, y) =>
+      rep_seps_match b p f seps
+      && match insert_item b p f i seps y with Some r => tree_same r a | None => false end
+    | None => false
+    end
+    && hwf_b all_classes b && hwf_b all_classes a
+  | _ => check_ecase c
+  end.
